@@ -38,6 +38,8 @@ func c10Schemas() []map[string]any {
 		m("allOf", l()), m("oneOf", l(m(), m())), m("type", "object", "required", l("zz")), m("type", "object", "properties", m("a", m("readOnly", true, "type", "string"), "b", m("writeOnly", true, "type", "string")), "required", l("a", "b")),
 		m("type", "integer", "default", "not-an-integer-default"), m("type", "array", "items", m("type", "integer"), "default", l(1.0, 2.0)), m("type", "object", "properties", m("a", m("type", "integer", "default", 1.0))),
 		m("$ref", "#/components/schemas/Rec"), m("type", "array", "items", m("$ref", "#/components/schemas/Rec")),
+		// patterns Go's engine cannot compile: admitted by DisableSchemaPatternValidation
+		m("type", "string", "pattern", "(?!x)a"), m("type", "array", "items", m("type", "string", "pattern", "(?=y)b")), m("type", "object", "properties", m("a", m("type", "string", "pattern", "(?!x)a"))),
 		m("type", "object", "discriminator", m("propertyName", "t"), "oneOf", l(m("$ref", "#/components/schemas/Rec"), m("type", "object", "properties", m("t", m("type", "string"))))),
 	}
 	return out
@@ -135,7 +137,7 @@ func init() {
 		}
 		e.doc = doc
 		// the gate: the document passes validation (under the default options, or with pattern/format leniency where the shape needs it)
-		if doc.Validate(context.Background()) != nil {
+		if doc.Validate(context.Background()) != nil && doc.Validate(context.Background(), openapi3.DisableSchemaPatternValidation()) != nil {
 			return e
 		}
 		e.valid = true
@@ -353,6 +355,21 @@ func init() {
 				if !r.Guard(x, "ValidateRequest", detail, func() { verr = openapi3filter.ValidateRequest(context.Background(), in) }) {
 					outcome = "panic"
 					continue
+				}
+				// the same request a second time (process-wide caches are warm now)
+				if body == nil || len(body) < 4096 {
+					var rd3 io.Reader
+					if body != nil {
+						rd3 = bytes.NewReader(body)
+					}
+					req3 := httptest.NewRequest(method, target, rd3)
+					req3.Header = req.Header.Clone()
+					in3 := &openapi3filter.RequestValidationInput{Request: req3, PathParams: pp, Route: route, Options: opts}
+					r.Exec(order)
+					if !r.Guard(x, "ValidateRequest(second time)", detail, func() { _ = openapi3filter.ValidateRequest(context.Background(), in3) }) {
+						outcome = "panic"
+						continue
+					}
 				}
 				r.Max("max_steps_observed", r.Steps())
 				r.Guard(x, "ConvertErrors", detail, func() {
